@@ -69,7 +69,7 @@ def append_check(ctx, res):
         if st == "1":
             nupd += 1
             bad = [HAYSTACKS[k] for k, b in enumerate(bits) if b == "2"] + [bytes.fromhex(x).decode("utf-8") for x in dyn.split(",") if x]
-            if bad and len(res["failures"]) < 200:
+            if bad and len(res["failures"]) < 5000:
                 res["failures"].append({"class": "append", "what": "typing %r after %r is treated as a refinement (status Update: only the current matches are rescored) but the new pattern matches %r which the old pattern does not: those items are lost until the next full rescore" % (new, old, bad[:4]), "case": "", "pair": [old, new], "k3": (mk3 == "0") if mk3 != "?" else k3_text(old)})
     res["extra"]["append_pairs"] = len(pairs)
     res["extra"]["append_pairs_with_status_update"] = nupd
